@@ -21,6 +21,7 @@ from asyncio.exceptions import CancelledError
 from asyncio.locks import Event, Semaphore
 from asyncio.tasks import Task, create_task, gather
 from contextlib import suppress
+from functools import partial
 from math import inf
 from typing import (
     TYPE_CHECKING,
@@ -30,6 +31,7 @@ from typing import (
     ClassVar,
     Coroutine,
     Dict,
+    Generator,
     Iterable,
     List,
     Literal,
@@ -75,6 +77,53 @@ _T = TypeVar("_T")
 _Ts = TypeVarTuple("_Ts")
 
 log = logging.getLogger(__name__)
+
+
+class _StartGuard(Coroutine[Any, Any, _R]):
+    """
+    Makes sure a task that is cancelled before its first step is not lost.
+
+    When an `asyncio.Task` is cancelled before it started, the event loop throws
+    the `CancelledError` into a coroutine that has not begun to execute, which
+    ends it at once, without ever entering any of its `try` blocks.
+    A task pool would never notice that such a task is gone.
+
+    This object passes everything through to the wrapped coroutine, except that
+    a `CancelledError` thrown before the first step starts the coroutine
+    returned by `never_started` instead (and closes the original one).
+    """
+
+    def __init__(
+        self,
+        coroutine: Coroutine[Any, Any, _R],
+        never_started: Callable[[], Coroutine[Any, Any, _R]],
+    ) -> None:
+        self._coroutine = coroutine
+        self._never_started = never_started
+        self._started = False
+
+    def send(self, value: Any) -> Any:
+        self._started = True
+        return self._coroutine.send(value)
+
+    def throw(self, *exc_info: Any) -> Any:
+        if not self._started:
+            self._started = True
+            exc = exc_info[0]
+            if isinstance(exc, CancelledError) or (
+                isinstance(exc, type) and issubclass(exc, CancelledError)
+            ):
+                self._coroutine.close()
+                self._coroutine = self._never_started()
+                return self._coroutine.send(None)
+        return self._coroutine.throw(*exc_info)
+
+    def close(self) -> None:
+        self._coroutine.close()
+
+    def __await__(self) -> Generator[Any, Any, _R]:
+        self._started = True
+        return self._coroutine.__await__()
 
 
 class BaseTaskPool:
@@ -325,13 +374,13 @@ class BaseTaskPool:
         log.info("Ended %s", self._task_name(task_id))
         await execute_optional(custom_callback, args=(task_id,))
 
-    async def _task_wrapper(
+    def _task_wrapper(
         self,
         awaitable: Awaitable[_R],
         task_id: int,
         end_callback: EndCB | None = None,
         cancel_callback: CancelCB | None = None,
-    ) -> _R | None:
+    ) -> Coroutine[Any, Any, _R | None]:
         """
         Universal wrapper around every task run in the pool.
 
@@ -353,6 +402,25 @@ class BaseTaskPool:
                 A callback to execute after cancellation of the task.
                 It is run with the `task_id` as its only positional argument.
         """
+        return _StartGuard(
+            self._run_task(awaitable, task_id, end_callback, cancel_callback),
+            partial(
+                self._run_task_never_started,
+                awaitable,
+                task_id,
+                end_callback,
+                cancel_callback,
+            ),
+        )
+
+    async def _run_task(
+        self,
+        awaitable: Awaitable[_R],
+        task_id: int,
+        end_callback: EndCB | None = None,
+        cancel_callback: CancelCB | None = None,
+    ) -> _R | None:
+        """Does the actual work described in `_task_wrapper`."""
         log.info("Started %s", self._task_name(task_id))
         try:
             return await awaitable
@@ -361,6 +429,29 @@ class BaseTaskPool:
                 task_id, custom_callback=cancel_callback
             )
             return None
+        finally:
+            await self._task_ending(task_id, custom_callback=end_callback)
+
+    async def _run_task_never_started(
+        self,
+        awaitable: Awaitable[Any],
+        task_id: int,
+        end_callback: EndCB | None = None,
+        cancel_callback: CancelCB | None = None,
+    ) -> None:
+        """
+        Stands in for `_run_task`, if the task is cancelled before it started.
+
+        The `awaitable` is closed without having been run and the task goes
+        through the same cancellation and ending steps as any other task.
+        """
+        log.info("Cancelled %s before start", self._task_name(task_id))
+        if iscoroutine(awaitable):
+            awaitable.close()
+        try:
+            await self._task_cancellation(
+                task_id, custom_callback=cancel_callback
+            )
         finally:
             await self._task_ending(task_id, custom_callback=end_callback)
 
